@@ -9,6 +9,7 @@ import (
 	"context"
 	"encoding/hex"
 	"encoding/json"
+	"errors"
 	"fmt"
 	"io"
 	"math/rand"
@@ -103,7 +104,8 @@ func (l *c6Local) TakesFunc(ctx context.Context, cb func(ctx context.Context, x 
 var _ = (*c6Local).lower
 
 type c6Remote struct {
-	Ping func(ctx context.Context, x int) (int, error)
+	Ping    func(ctx context.Context, x int) (int, error)
+	Iterate func(ctx context.Context, n int, cb func(ctx context.Context, i int) (int, error)) (int, error)
 }
 
 var c6Names = []string{
@@ -348,6 +350,78 @@ func subC06(args []string) {
 		if !r.ok || r.err != nil || r.val.(int) != i+1 {
 			say("BAD sibling link affected after frame %d: %+v", i, r)
 		}
+	}
+	// ---- a stalled peer: it invokes a closure of ours (a valid CallClosure) and then never answers the
+	// call that closure makes back to it. Only that one call may be stuck: closure-carrying calls on the
+	// sibling link (same registry, same closure table) must go on working.
+	if !systematic {
+		var vr c6Remote
+		found := false
+		waitFor(func() bool {
+			reg.ForRemotes(func(id string, r c6Remote) error {
+				// the victim's remote is the one that is not the sibling's: try it by type of traffic below
+				vr, found = r, true
+				return nil
+			})
+			return found
+		})
+		stall := make(chan struct{})
+		entered := make(chan struct{}, 1)
+		go vr.Iterate(context.Background(), 1, func(ctx context.Context, i int) (int, error) {
+			select {
+			case entered <- struct{}{}:
+			default:
+			}
+			<-stall // the peer never answers what this closure is waiting for
+			return 0, nil
+		})
+		// the raw peers of BOTH the victim link and the sibling see an Iterate request; answer each with a CallClosure for its closure id
+		invoke := func(q *Queue, in func([]byte)) {
+			for k := 0; k < 50; k++ {
+				b, err := q.Get()
+				if err != nil {
+					return
+				}
+				var req struct {
+					Call     string            `json:"call"`
+					Function string            `json:"function"`
+					Args     []json.RawMessage `json:"args"`
+				}
+				if json.Unmarshal(b, &req) == nil && req.Function == "Iterate" && len(req.Args) == 2 {
+					in([]byte(fmt.Sprintf(`{"call":"cc%d","function":"CallClosure","args":[%s,[1]]}`, k, req.Args[1])))
+					return
+				}
+			}
+		}
+		if api == "message" {
+			go invoke(v.outReq, func(f []byte) { v.in.Put(f) })
+		} else {
+			go invoke(v.outReq, func(f []byte) { v.pw.Write([]byte(fmt.Sprintf(`{"request":%s,"response":null}`+"\n", f))) })
+		}
+		go invoke(sq[0], func(f []byte) { sq[2].Put(f) })
+		select {
+		case <-entered:
+			// now another closure-carrying call through the same registry: it must get as far as waiting for its
+			// response (and then give up with its own context's deadline) — it must not hang registering its closure
+			done := make(chan error, 1)
+			go func() {
+				ctx, cancel := context.WithTimeout(context.Background(), 300*time.Millisecond)
+				defer cancel()
+				_, err := vr.Iterate(ctx, 1, func(ctx context.Context, i int) (int, error) { return i, nil })
+				done <- err
+			}()
+			select {
+			case err := <-done:
+				if !errors.Is(err, context.DeadlineExceeded) {
+					say("OK second closure-carrying call returned %v", err)
+				}
+			case <-time.After(3 * time.Second):
+				say("BAD a closure-carrying call on the same registry hangs (not even its own context's deadline ends it) while a peer stalls inside a closure of another call")
+			}
+		case <-time.After(2 * time.Second):
+			say("OK stall scenario not reached")
+		}
+		close(stall)
 	}
 	say("DONE links=%d answered=%d ended=%d", links, answered, ended)
 }
